@@ -33,6 +33,7 @@ RULE = ("sequences of 10-22 residues with >= 3 of each charge and some neutrals 
 RULE += ("; added after the mutation rounds: 2-bin runs with a 2600-step first iteration (ln-DOS beyond 709.8); criterion 0.9 checked every 1-2 steps (streaks of >= 200 failing checks); a second run() on the same machine judged by a fresh shadow automaton; the first cases of every shard are judged again at its end")
 RULE += ("; round 5: thresholds at or above the starting f (no step expected); 6-7 residue chains with few arrangements (proposals identical to the current sequence); requested ranges not aligned to any equal partition")
 RULE += ("; round 6: a wall clock that jumps by hours or days between readings on a third of the runs; another machine set up on the same output directory before the run")
+RULE += ("; round 8: chains of 31-40 residues; flatness criterion exactly 1; machines taken from a SequencePermutants front end that had been initialised with other settings")
 EXHAUSTIVE = {"quick": False, "thorough": False}
 ASSUMPTIONS = [
     "bin centres are (i+1/2)/M; a proposal is in range iff its bin index lies in [a, b-1] for the requested range [a/M, b/M]",
